@@ -69,6 +69,12 @@ func runTranslate(r *prng.R, s *out.Sink, tier string) {
 			base = uint16(65000 + r.Intn(500))
 		}
 		perm := r.Perm(nParties)
+		// every other map of the kinds with small party identifiers contains party identifier 0 (a legal identifier, and the
+		// zero value that a failed look-up yields)
+		zeroParty := -1
+		if (k/6)%2 == 1 && kind != "wide-ids" {
+			zeroParty = r.Intn(nParties)
+		}
 		for p := 0; p < nParties; p++ {
 			var pid tss.PartyID
 			switch kind {
@@ -89,6 +95,9 @@ func runTranslate(r *prng.R, s *out.Sink, tier string) {
 						}
 					}
 				}
+			}
+			if p == zeroParty {
+				pid = 0
 			}
 			reps := 1
 			if kind == "replicas" {
